@@ -7,11 +7,31 @@ def nt_bin(header, lines):
             and any(l.startswith("obs error") for l in lines))
 
 
+def nt_frame(header, lines):
+    frames = sum(1 for l in lines if l.startswith("obs frame"))
+    mid = False
+    for a, b in zip(lines, lines[1:]):
+        if a.startswith("obs fed ") and a.strip() != "obs fed -" and not (b.startswith("obs frame") or b.startswith("obs error")):
+            mid = True
+    end = any(l.startswith("obs eof") or l.startswith("obs error") for l in lines)
+    return frames >= 2 and mid and end
+
+
+def nt_e2e(header, lines):
+    return sum(1 for l in lines if l.startswith("obs recv")) >= 3 and any(l.startswith("obs eof") for l in lines)
+
+
 FAMILIES = [
     trace.Family("c15bin", ["--scripts=400", "--len=40"], ["--scripts=20000", "--len=40"], nontrivial=nt_bin,
                  rule="scripts 0,1 = fixed boundary suite (boundary ids, every stable io::ErrorKind, length-prefix edges, "
                       "non-canonical varints, reader errors); rest random enc/dec ops with str and u64 bodies; "
                       "non-trivial = contains a round trip of an error response, a decode to a message and a decode error"),
+    trace.Family("c15frame", ["--scripts=1000", "--len=40"], ["--scripts=20000", "--len=60"], nontrivial=nt_frame,
+                 rule="real FramedRead<LengthDelimitedCodec> fed PRNG-chosen chunks (0- and 1-byte chunks, stutter Pendings, "
+                      "cuts inside header/body, oversize lengths); non-trivial = >= 2 frames, a chunk ending mid-frame, and an eof/error"),
+    trace.Family("c15e2e", ["--scripts=1000", "--len=40"], ["--scripts=8000", "--len=60"], nontrivial=nt_e2e,
+                 rule="real serde_transport (bincode, json) over a fragmenting duplex and the in-memory bounded/unbounded "
+                      "channels: send/flush/recv/close/drop in PRNG order; non-trivial = >= 3 messages received and an eof"),
 ]
 
 ASSUMPTIONS = [
@@ -21,7 +41,10 @@ ASSUMPTIONS = [
 ]
 
 PARTIAL = [
-    "JSON text-level round trip is covered by correspondence only (no Lean JSON parser yet)",
+    "JSON text-level round trip is covered by correspondence only (no Lean JSON parser): the c15e2e family sends every "
+    "message kind through the real JSON codec and compares what arrives",
+    "monitor-acceptance theorems exist for neither the frame nor the pipe monitor (validated empirically); the stream "
+    "theorems are stated directly on the decoder/queue models",
 ]
 
 
